@@ -303,6 +303,17 @@ class StubRequest:
         self.closed += 1
 
 
+class ErrStubRequest(StubRequest):
+    """a parser that stopped with an error: like the real HTTPRequestParser it has NO path /
+    request_uri / query / url_scheme (they are assigned by parse_header after split_uri succeeded,
+    and an error request never got that far or failed there); reading them raises AttributeError"""
+
+    def __getattribute__(self, name):
+        if name in ("path", "request_uri", "query", "url_scheme", "fragment", "proxy_scheme", "proxy_netloc"):
+            raise AttributeError(name)
+        return object.__getattribute__(self, name)
+
+
 class FakeFile:
     """file-like object delivering [content] from position [pos]; optionally seekable"""
 
@@ -545,7 +556,7 @@ def run_real(case):
     err = None
     if rq["err"] is not None:
         err = getattr(utilities, rq["err"][0])(rq["err"][1])
-    request = StubRequest(rq["version"], rq["conn"], rq["head"], err, bool(rq.get("cclose")))
+    request = (ErrStubRequest if err is not None else StubRequest)(rq["version"], rq["conn"], rq["head"], err, bool(rq.get("cclose")))
 
     def application(environ, start_response):
         def sr(*a):
@@ -874,6 +885,17 @@ HOSTILE_TEXTS = [
     'Malformed header line "a%zb"', "Invalid header %41", "Traceback %(lineno)d\n  raise ValueError('%d' % n)\n",
 ]
 HOSTILE_IDENTS = ["waitress", "", "srv%s", "a%", "{}", "{0}", "Id\xe9nt", "%(x)s", "srv\\1"]
+# an ident that cannot be encoded into a response head: EVERY head fails, the ladder's 500 included
+# (outside the model, whose configuration strings are latin-1: judged by the monitor only)
+UNENCODABLE_IDENTS = ["srv\u20ac", "\u0100"]
+
+
+def ident_encodable(case):
+    try:
+        (case["cfg"]["ident"] or "server").encode("latin-1")
+        return True
+    except UnicodeEncodeError:
+        return False
 
 
 def expected_error_body(case, reason=None, body=None):
@@ -938,6 +960,14 @@ def hostile_error_cases(rng, tier):
             out.append((("hostile ident", repr(ident), text), mk_case([["R", "XE"]], expose=True, tb=text, ident=ident)))
             out.append((("hostile ident, request.error", repr(ident), text),
                         mk_case(err=["BadRequest", text], ident=ident, version="1.0", conn="keep-alive")))
+    # a server that cannot build any head: nothing may escape service(), the connection is wound up
+    for ident in UNENCODABLE_IDENTS:
+        for tag, call, steps in failing + [("healthy application", [S("200 OK", [("Content-Type", "text/plain")])], [Y(b"body")])]:
+            for version, conn, head in mixes[:3]:
+                out.append((("unencodable ident", tag, repr(ident), head),
+                            mk_case(call, steps=steps, version=version, conn=conn, head=head, ident=ident)))
+        out.append((("unencodable ident, request.error", repr(ident)),
+                    mk_case(err=["BadRequest", "x"], ident=ident)))
     # random texts over the alphabet
     alpha = ["%", "s", "d", "(", ")", "{", "}", "0", "\\", "\r", "\n", "\x00", "\u20ac", "\U0001f600", "a", " ", "\xe9", "\udce9", "\ud800"]
     n = 150 if tier == "quick" else 3000
